@@ -966,6 +966,12 @@ class Interp:
             if ti:
                 lo_, hi_ = rng(ti[0], ti[1])
                 return const(ti[0], ti[1], hi_ if name == 'max' else lo_)
+        if kind == 'function' and name == 'swap' and len(args) == 2:
+            la, lb = self.lval(args[0], env), self.lval(args[1], env)
+            va, vb = self.load(la, env), self.load(lb, env)
+            self.store(la, vb, env)
+            self.store(lb, va, env)
+            return None
         if kind == 'function' and name in ('min', 'max') and len(args) == 2:
             a, b = self.expr(args[0], env), self.expr(args[1], env)
             if isinstance(a, IV) and isinstance(b, IV):
@@ -1257,6 +1263,23 @@ class Interp:
             obj = Obj(cls, {}, name or cls.split('::')[-1])
         if not cands:
             if not argvals:
+                # implicit default constructor: default-construct the bases, apply in-class member initialisers
+                for b in self.idx.bases_of(cls, transitive=False):
+                    try:
+                        self.construct(b, [], obj)
+                    except AnalysisBroken:
+                        pass
+                for fd in rec.fields:
+                    ini = [c_ for c_ in children(fd) if 'kind' in c_]
+                    if ini and fd.get('name') not in obj.fields:
+                        try:
+                            v = self.expr(ini[-1], {'this': obj, 'locals': {}})
+                            ti = tinfo(fd, self.idx)
+                            if ti and isinstance(v, IV):
+                                v = self.convert(v, ti[0], ti[1])
+                            obj.fields[fd['name']] = v
+                        except AnalysisBroken:
+                            pass
                 return obj
             raise AnalysisBroken('no %d-parameter constructor of %s' % (len(argvals), cls))
         if len(cands) > 1:
